@@ -527,7 +527,45 @@ class Frame(object):
             pass
         elif k == "CXXTryStmt":
             self.stmt(c[0])
-        elif k in ("SwitchStmt", "CaseStmt", "DefaultStmt", "GotoStmt", "LabelStmt"):
+        elif k == "SwitchStmt":
+            real = [x for x in c if x is not None]
+            sel = self.rv(real[0])
+            sv = sel.svalue(is_signed(self.ty(real[0]))) if isinstance(sel, BV) else None
+            if sv is None:
+                raise Unsupported("switch on a value that depends on the object or the argument (line %s)" % n.get("l"))
+            items = []
+            body = real[-1]
+            for s_ in (body.get("c", []) if body["k"] == "CompoundStmt" else [body]):
+                inner = s_
+                while inner is not None and inner["k"] in ("CaseStmt", "DefaultStmt"):
+                    if inner["k"] == "CaseStmt":
+                        cvn = inner["c"][0]
+                        while "v" not in cvn and cvn.get("c"):
+                            cvn = cvn["c"][0]
+                        items.append(("case", int(cvn.get("v")) if "v" in cvn else None))
+                    else:
+                        items.append(("default",))
+                    inner = inner["c"][-1] if inner.get("c") else None
+                if inner is not None:
+                    items.append(("stmt", inner))
+            start = None
+            for i, it in enumerate(items):
+                if it[0] == "case" and it[1] == sv:
+                    start = i
+                    break
+            if start is None:
+                for i, it in enumerate(items):
+                    if it[0] == "default":
+                        start = i
+                        break
+            if start is not None:
+                try:
+                    for it in items[start:]:
+                        if it[0] == "stmt":
+                            self.stmt(it[1])
+                except _Break:
+                    pass
+        elif k in ("CaseStmt", "DefaultStmt", "GotoStmt", "LabelStmt"):
             raise Unsupported("%s in accessor" % k)
         else:
             self.ev(n)
